@@ -7,7 +7,11 @@ R20.1 consistent incremental summaries (``RTDCWriter.write_ndarray``):
       reducer of the new block – min/max combined by a NaN-ignoring reducer
       on both operands; a mean combined as (m_a n_a + m_b n_b)/(n_a + n_b)
       from nanmeans must take n_a, n_b from NaN-ignoring counts of the
-      respective parts and exclude all-NaN parts.
+      respective parts and exclude all-NaN parts.  The stored partial
+      result of (ii) is the attribute the file holds for this dataset
+      (``D.attrs``), never a value the writer instance remembers
+      (``self.<attr>[...]``): such memory outlives a dataset that is deleted
+      and re-created under the same name and misses other writers.
 R20.2 the name -> reducer tables of writer, copier, H5ScalarEvent and
       ChildScalar are the same three pairs (NaN-ignoring reducers).
 R20.3 lookup: the readers return the cached value or compute it from their
@@ -652,8 +656,18 @@ def _stored_operand(ctx, pv, cfg, uname, node, ops, lab):
                                        f"substitute")
     # names / expressions that denote the stored value
     subjects = {txt(sn) for sn in snodes}
+    def binds_stored(v):
+        """`<stored>` or `<stored> if <test> else None` (either order)"""
+        if v in snodes:
+            return True
+        if isinstance(v, ast.IfExp):
+            arms = [v.body, v.orelse]
+            return any(a in snodes for a in arms) and all(
+                a in snodes or (isinstance(a, ast.Constant)
+                                and a.value is None) for a in arms)
+        return False
     for nm, defs in pv.defs.items():
-        if any(d.value in snodes for d in defs):
+        if any(binds_stored(d.value) for d in defs):
             subjects.add(nm)
     keytxts = set()
     for sn in snodes:
